@@ -510,7 +510,28 @@ def run_members(case, rec):
 # ---------------------------------------------------------------------------------------
 # histories: operation sequences on one struct instance against a dict model
 
-HIST_OPS = ['set', 'set', 'set', 'bad', 'bad', 'none', 'del', 'read', 'read', 'encode', 'reload', 'eq', 'init']
+HIST_OPS = ['set', 'set', 'set', 'bad', 'bad', 'badeq', 'none', 'del', 'read', 'read', 'encode', 'reload', 'eq', 'init']
+
+
+def equal_but_wrong(v):
+    """Python values that compare == to v but have another type (True == 1 == 1.0, [1] == [1.0])."""
+    out = []
+    if isinstance(v, bool):
+        out += [int(v), float(v)]
+    elif isinstance(v, int):
+        out += [float(v)] + ([bool(v)] if v in (0, 1) else [])
+    elif isinstance(v, float) and v in (0.0, 1.0):
+        out += [bool(v)]
+    elif isinstance(v, list) and v:
+        for i, x in enumerate(v):
+            for y in equal_but_wrong(x):
+                out.append(v[:i] + [y] + v[i + 1:])
+        out.append(tuple(v))
+    elif isinstance(v, dict) and v:
+        k = next(iter(v))
+        for y in equal_but_wrong(v[k]):
+            out.append(dict(v, **{k: y}))
+    return out
 
 
 @st.composite
@@ -549,6 +570,8 @@ def object_histories(draw):
                 ops.append((op, draw(st.booleans())))
             elif op in ('encode', 'eq', 'init'):
                 ops.append((op,))
+            elif op == 'badeq':
+                ops.append((op, f['name'], draw(st.integers(0, 99))))
             else:
                 ops.append((op, f['name']))
         runs.append(((n, d['name']), ops))
@@ -643,6 +666,33 @@ def run_histories(case, rec):
                     try:
                         setattr(inst, fname, value)
                         viol('accepted-invalid', 'a value violating the declared type was accepted (%s)' % why, why)
+                        ok = False
+                        break
+                    except bv.ValidationError:
+                        pass
+                    except Exception as e:
+                        viol('wrong-exception', '%s raised instead of ValidationError: %r' % (type(e).__name__, e),
+                             type(e).__name__ + ':' + why)
+                        ok = False
+                        break
+                elif kind == 'badeq':
+                    # a value that is == to what the field holds but violates the declared type
+                    if fname not in model:
+                        continue
+                    try:
+                        held = getattr(inst, fname)
+                    except Exception:
+                        continue
+                    cands = [c for c in equal_but_wrong(held) if ref_pred(idx, f['type'], c)[0] == 'R']
+                    if not cands:
+                        continue
+                    value = cands[op[2] % len(cands)]
+                    why = ref_pred(idx, f['type'], value)[1]
+                    trace.append('set %s=<== to the held value, wrong type: %r>' % (fname, value))
+                    try:
+                        setattr(inst, fname, value)
+                        viol('accepted-invalid', 'a value equal to the held one but violating the declared type was '
+                             'accepted (%s): %r over %r' % (why, value, held), 'equal-to-held|' + why)
                         ok = False
                         break
                     except bv.ValidationError:
@@ -780,7 +830,7 @@ def run_histories(case, rec):
                          kind + '|' + diff_class(diff))
                     ok = False
                     break
-            nontriv = ok and len(seen) >= 3 and bool(seen & {'bad', 'del', 'none'}) and bool(seen & {'read', 'encode', 'reload', 'eq'})
+            nontriv = ok and len(seen) >= 3 and bool(seen & {'bad', 'badeq', 'del', 'none'}) and bool(seen & {'read', 'encode', 'reload', 'eq'})
             rec.case(core.h64((repr(specs), ns, name, repr(ops))), nontriv,
                      classes=['hist:' + k for k in sorted(seen)] + ['hist_len:%d' % min(len(trace) // 4 * 4, 16)],
                      sample=lambda: {'struct': '%s.%s' % (ns, name), 'history': list(trace)[:12]})
